@@ -196,15 +196,169 @@ fn map_checks<S: Suite>(ctx: &Ctx, ta: &TAlpha<S>) {
     );
 }
 
+/// All field elements u with sswu(u) = P' for a prescribed affine point P' of the isogenous curve: the two candidate branches
+/// of RFC 9380 6.6.2 solved for t = Z u^2 (x1 = -B/A (1 + 1/(t^2+t)), x2 = t x1), then u = +-sqrt(t/Z); every candidate is
+/// verified with the reference SSWU map (point and sign).
+fn sswu_preimages<S: Suite>(target: &Pt<S::K>) -> Vec<S::K> {
+    let (x0, _) = match target {
+        Pt::Aff(x, y) => (x.clone(), y.clone()),
+        Pt::Inf => return vec![],
+    };
+    let iso = S::iso_curve();
+    let z = S::z();
+    let one = S::K::one();
+    let two_inv = S::K::from_u64(2).inv().unwrap();
+    // c = -A x0 / B
+    let c = iso.a.neg().mul(&x0).mul(&iso.b.inv().unwrap());
+    let mut ts: Vec<S::K> = vec![];
+    // branch x1: t^2 + t - d = 0 with d = 1/(c-1)
+    if let Some(d) = c.sub(&one).inv() {
+        let disc = one.add(&S::K::from_u64(4).mul(&d));
+        if let Some(sq) = S::sqrt(&disc) {
+            ts.push(sq.sub(&one).mul(&two_inv));
+            ts.push(sq.neg().sub(&one).mul(&two_inv));
+        }
+    }
+    // branch x2: t^2 + (1-c) t + (1-c) = 0
+    {
+        let e = one.sub(&c);
+        let disc = e.sq().sub(&S::K::from_u64(4).mul(&e));
+        if let Some(sq) = S::sqrt(&disc) {
+            ts.push(sq.sub(&e).mul(&two_inv));
+            ts.push(sq.neg().sub(&e).mul(&two_inv));
+        }
+    }
+    let zi = z.inv().unwrap();
+    let mut out = vec![];
+    for t in ts {
+        if let Some(u) = S::sqrt(&t.mul(&zi)) {
+            for cand in [u.clone(), u.neg()] {
+                if S::ref_sswu(&cand).0 == *target && !out.contains(&cand) {
+                    out.push(cand);
+                }
+            }
+        }
+    }
+    out
+}
+
+/// Field elements whose image BEFORE cofactor clearing is a prescribed point S of the target curve: rational preimages of S
+/// under the isogeny (roots of xnum - S.x * xden; y from the y-map), then SSWU preimages of each.
+fn inputs_with_image<S: Suite>(target: &Pt<S::K>, field_size: &num_bigint::BigUint, rand: &mut dyn FnMut() -> S::K) -> Vec<S::K> {
+    let tables = S::lib_iso();
+    let iso = S::iso_curve();
+    let (sx, sy) = match target {
+        Pt::Aff(x, y) => (x.clone(), y.clone()),
+        Pt::Inf => return vec![],
+    };
+    let n = tables[0].len().max(tables[1].len());
+    let f: Vec<S::K> = (0..n)
+        .map(|i| {
+            let a = tables[0].get(i).cloned().unwrap_or_else(S::K::zero);
+            let b = tables[1].get(i).cloned().unwrap_or_else(S::K::zero);
+            a.sub(&sx.mul(&b))
+        })
+        .collect();
+    let mut out = vec![];
+    for x0 in crate::polyroots::roots(&f, field_size, rand) {
+        let yn = poly_eval(&tables[2], &x0);
+        let yd = poly_eval(&tables[3], &x0);
+        if poly_eval(&tables[1], &x0).is_zero() || yd.is_zero() {
+            continue;
+        }
+        if let Some(yni) = yn.inv() {
+            let p = Pt::Aff(x0.clone(), sy.mul(&yd).mul(&yni));
+            if iso.on_curve(&p) && ref_iso(&tables, &p) == *target {
+                out.extend(sswu_preimages::<S>(&p));
+            }
+        }
+    }
+    out
+}
+
+/// inputs whose pre-clearing image is special: already in the order-r subgroup (the generator, 2g, a seeded multiple), or
+/// the identity (SSWU preimages of rational kernel points of the isogeny, where they exist)
+fn prescribed_image_checks<S: Suite>(ctx: &Ctx, field_size: &num_bigint::BigUint, rand: &(dyn Fn(&mut crate::infra::SplitMix) -> S::K + Sync), kernel: &[Pt<S::K>]) {
+    let name = S::NAME;
+    let e = S::curve();
+    let tables = S::lib_iso();
+    let g = S::gen();
+    let mut rng = ctx.rng(&format!("c14.prescribed.{}", name));
+    let k = crate::alpha::rand_below(&mut rng, r());
+    let targets: Vec<(&'static str, Pt<S::K>)> = vec![("the generator", g.clone()), ("2g", e.dbl(&g)), ("-g", e.neg(&g)), ("a seeded multiple of g", e.mul(&g, &k))];
+    let mut us: Vec<(S::K, &'static str)> = vec![];
+    for (cls, t) in &targets {
+        let mut r2 = crate::infra::SplitMix(rng.next());
+        for u in inputs_with_image::<S>(t, field_size, &mut || rand(&mut r2)) {
+            us.push((u, cls));
+        }
+    }
+    for kp in kernel {
+        for u in sswu_preimages::<S>(kp) {
+            us.push((u, "SSWU image in the kernel of the isogeny"));
+        }
+    }
+    ctx.extra(&format!("{}: inputs with a prescribed image before cofactor clearing (in the subgroup / identity)", name), json!(us.len()));
+    if us.is_empty() {
+        ctx.note(format!("{}: no rational input maps onto the prescribed points before cofactor clearing", name));
+        return;
+    }
+    ctx.sweep(
+        &format!("{}.map_to_curve.prescribed_images", name),
+        us.len() as u64,
+        |i| json!({"u": S::showk(&us[i as usize].0), "image_before_clearing": us[i as usize].1}),
+        |i| {
+            let (u, cls) = &us[i as usize];
+            let got = guard(|| S::lib_map(u)).map_err(|m| Fail::new(format!("{}: map_to_curve panicked: {}", name, m)))?;
+            let want = ref_map::<S>(&tables, &[u.clone()]);
+            if !S::raw_on_curve(&got) || S::pt_of(&got) != want {
+                return Err(Fail::with(format!("{}: map_to_curve(u) != [h_eff] iso(sswu(u)) for an input whose image before clearing is {}", name, cls), json!({"got": S::show(&S::pt_of(&got)), "want": S::show(&want)})));
+            }
+            Ok(*cls)
+        },
+    );
+    // pairs among them and with a generic input
+    let m = us.len().min(6);
+    let generic = S::K::from_u64(5);
+    let mut pairs: Vec<(S::K, S::K)> = vec![];
+    for a in 0..m {
+        for b in 0..m {
+            pairs.push((us[a].0.clone(), us[b].0.clone()));
+        }
+        pairs.push((us[a].0.clone(), generic.clone()));
+        pairs.push((generic.clone(), us[a].0.clone()));
+    }
+    ctx.sweep(
+        &format!("{}.map2_to_curve.prescribed_images", name),
+        pairs.len() as u64,
+        |i| json!({"u0": S::showk(&pairs[i as usize].0), "u1": S::showk(&pairs[i as usize].1)}),
+        |i| {
+            let (u0, u1) = &pairs[i as usize];
+            let got = guard(|| S::lib_map2(u0, u1)).map_err(|m| Fail::new(format!("{}: map2_to_curve panicked: {}", name, m)))?;
+            let want = ref_map::<S>(&tables, &[u0.clone(), u1.clone()]);
+            if !S::raw_on_curve(&got) || S::pt_of(&got) != want {
+                return Err(Fail::new(format!("{}: map2_to_curve != [h_eff](iso(sswu(u0)) + iso(sswu(u1))) for inputs whose images before clearing lie in the subgroup or are the identity", name)));
+            }
+            Ok("prescribed images")
+        },
+    );
+}
+
 pub fn run(ctx: &Ctx) -> (&'static str, &'static str) {
     let t1 = build_g1(ctx, ctx.tier.pick(6, 32), ctx.tier.pick(16, 512));
     map_checks::<RG1>(ctx, &t1);
     let t2 = build_g2(ctx, ctx.tier.pick(3, 12), ctx.tier.pick(16, 256));
     map_checks::<RG2>(ctx, &t2);
+    {
+        let q = q();
+        let k1 = crate::checks::c16::g1_kernel_points(ctx);
+        prescribed_image_checks::<RG1>(ctx, q, &|r| Q1::new(crate::alpha::rand_below(r, q)), &k1);
+        prescribed_image_checks::<RG2>(ctx, &(q * q), &|r| Q2::new(vec![Q1::new(crate::alpha::rand_below(r, q)), Q1::new(crate::alpha::rand_below(r, q))]), &[]);
+    }
     ctx.assume("the expected value uses the library's clear_h stage on the reference sum (C17 establishes clear_h = [h_eff] on the whole curve); a subset is additionally compared with a full big-integer [h_eff] multiplication");
     ctx.assume("isogeny coefficients are read from the library tables (C16 establishes that they define a homomorphism onto the target curve; RFC vectors in C06 pin the normalisation)");
     (
         "exploration",
-        "u alphabet = the C15 class-complete SSWU alphabet (zero, exceptional roots, every case-split class, seeded); singles: all of it; pairs: all ordered pairs of a 12-24 element spread, zero/exceptional members with generic ones, the diagonal (u,u) and anti-diagonal (u,-u) for 40-160 u, and constructed pairs of DISTINCT inputs with coinciding or opposite SSWU images obtained by inverting the SWU x-formula in the reference model (both families: Z t'^2 = -1 - Z t^2, where the two outputs are the same Jacobian triple, and t' = +-1/(Z t), where x1 and x2 swap and the representatives differ); a class with fewer than 2 members is a machinery failure; non-trivial = any pair class",
+        "u alphabet = the C15 class-complete SSWU alphabet (zero, exceptional roots, every case-split class, seeded); singles: all of it; pairs: all ordered pairs of a 12-24 element spread, zero/exceptional members with generic ones, the diagonal (u,u) and anti-diagonal (u,-u) for 40-160 u, and constructed pairs of DISTINCT inputs with coinciding or opposite SSWU images obtained by inverting the SWU x-formula in the reference model (both families: Z t'^2 = -1 - Z t^2, where the two outputs are the same Jacobian triple, and t' = +-1/(Z t), where x1 and x2 swap and the representatives differ); a class with fewer than 2 members is a machinery failure; inputs with a PRESCRIBED image before cofactor clearing (rational preimages of g, 2g, -g and a seeded multiple under the isogeny, then under SSWU; SSWU preimages of the rational kernel points), singly and in pairs, against the full big-integer composition; non-trivial = any pair class",
     )
 }
